@@ -143,3 +143,6 @@ func (p *Prog) closureOfLocal(f *Func, e ast.Expr) *Func {
 	}
 	return p.byLit[lits[0]]
 }
+
+// ClosureOfLocal is closureOfLocal for rules: the literal a single-assignment local names.
+func (p *Prog) ClosureOfLocal(f *Func, e ast.Expr) *Func { return p.closureOfLocal(f, e) }
